@@ -43,6 +43,11 @@ def apply_op(objs, op, kind):
         objs[op["h"]] = objs[op["c"]].create_section(W.conc_name(op["n"]))
     elif n == "create_prop":
         objs[op["h"]] = objs[op["c"]].create_property(W.conc_name(op["n"]), values=[1])
+    elif n == "clone_attach":
+        y = objs[op["x"]].clone(keep_id=op["keep"])
+        objs[op["h"]] = y
+        if op["c"] != "none":
+            objs[op["c"]].append(y)
     else:
         raise C.MachineryError("unknown op " + n)
 
@@ -88,7 +93,13 @@ def _ops_for(st, rng):
     kids = [h for h in objs if st["kind"][h] in ("sec", "prop")]
     c, x, y = rng.choice(conts), rng.choice(kids), rng.choice(kids)
     name = rng.choice(["append", "insert", "extend2", "remove", "set_parent", "setitem", "reorder", "rename",
-                       "append", "set_parent", "insert"])
+                       "append", "set_parent", "insert", "rename", "clone_attach"])
+    if name == "clone_attach":
+        if len(objs) >= 16:
+            name = "rename"
+        else:
+            return {"name": name, "x": x, "c": rng.choice(conts + ["none"]), "keep": False,
+                    "h": "k%d" % (1 + sum(1 for o in objs if o.startswith("k")))}
     if name == "append":
         return {"name": name, "c": c, "x": rng.choice(objs)}
     if name == "insert":
@@ -119,10 +130,22 @@ def replay_history(t):
         cur, objs = W.project(objs, docof=False)
         op = _ops_for(cur, rng)
         pre, out, exc, post, objs = step(objs, op, cur["kind"])
-        yield {"src": "model", "hist": t["hist"], "step": i, "op": op, "out": out, "exc": exc, "pre": pre, "post": post}
-        # the judge is inductive; an ill-formed world may make later library calls loop, so stop there
-        if not _wf_quick(post):
+        yield {"src": "hist" if op["name"] == "clone_attach" else "model", "hist": t["hist"], "step": i, "op": op,
+               "out": out, "exc": exc, "pre": pre, "post": post}
+        # a parent cycle makes later library calls loop: stop the history there
+        if _has_cycle(post):
             break
+
+
+def _has_cycle(st):
+    for x in st["par"]:
+        seen, cur = set(), x
+        while cur != "none" and cur in st["par"]:
+            if cur in seen:
+                return True
+            seen.add(cur)
+            cur = st["par"][cur]
+    return "hang" in st.get("docof", {}).values()
 
 
 def _wf_quick(st):
